@@ -133,6 +133,10 @@ def make_strategy(plan, obs=None, defaults=None):
                         state=dict(portfolio_value=self.portfolio_value, trades=len(self.trades),
                                    daily_balances=len(self.daily_balances), vars=sorted(map(str, self.vars.items())),
                                    class_state=class_state(type(self))))
+            if obs is not None and self.index == 3:
+                # ordinary strategy logging; in debug mode logger.error publishes to the (absent) dashboard
+                self.log('c11 probe: step 3')
+                self.log('c11 probe: careful', 'error')
             self.shared_vars['sessions_seen'] = self.shared_vars.get('sessions_seen', 0) + (1 if self.index == 0 else 0)
 
         def _signal(self):
